@@ -6,7 +6,7 @@ use crate::region::{Flavour, region};
 use bump_scope::alloc::{AllocError, Allocator};
 use bump_scope::settings::{Bool, BumpSettings, MinimumAlignment, SupportedMinimumAlignment};
 use bump_scope::stats::AnyStats;
-use bump_scope::traits::{BumpAllocator, BumpAllocatorCore, BumpAllocatorScope, BumpAllocatorTyped};
+use bump_scope::traits::{BumpAllocator, BumpAllocatorCore, BumpAllocatorCoreScope, BumpAllocatorScope, BumpAllocatorTyped, BumpAllocatorTypedScope};
 use bump_scope::{BaseAllocator, Bump, BumpScope, BumpScopeGuard, Checkpoint, MutBumpVec, MutBumpVecRev, WithoutDealloc, WithoutShrink};
 use std::alloc::Layout;
 use std::ptr::NonNull;
@@ -70,6 +70,11 @@ pub trait ScopeOps {
     fn grow(&self, addr: usize, old: Layout, new: Layout, zeroed: bool, wrap: Wrap, via: &str) -> AllocRes;
     fn shrink(&self, addr: usize, old: Layout, new: Layout, wrap: Wrap, via: &str) -> AllocRes;
     fn reserve(&self, n: usize, via: &str) -> Result<(), ()>;
+    /// value-level allocation entry points (alloc, alloc_with, alloc_slice_copy, alloc_str, ...): returns
+    /// (address, length in bytes, bytes found there right after the call)
+    fn alloc_value(&self, fam: &str, n: usize, tag: u8, via: &str) -> Result<(usize, usize, Vec<u8>), ()>;
+    /// alloc_try_with / alloc_try_with_mut: Err(()) = allocation error; Ok((Some((addr, bytes)) | None = closure returned Err, inner block address))
+    fn try_with(&mut self, fam: &str, ok: bool, is_mut: bool, inner: bool, tag: u8, via: &str) -> Result<(Option<(usize, Vec<u8>)>, usize), ()>;
     fn checkpoint(&self) -> Checkpoint;
     /// # Safety: the interpreter only passes checkpoints the model says are valid
     unsafe fn reset_to(&self, cp: Checkpoint);
@@ -128,8 +133,31 @@ impl Elem for [u64; 3] {
     }
 }
 #[derive(Clone, Copy)]
+pub struct B24(pub [u8; 24]);
+impl Elem for B24 {
+    fn make(t: u8) -> Self {
+        B24([t; 24])
+    }
+}
+#[derive(Clone, Copy)]
 #[repr(align(32))]
 pub struct A32(pub [u8; 32]);
+
+/// the layouts of Result<T, E> assumed by spec/Arena.tla (TwFams); checked at start-up
+pub fn check_try_with_layouts() {
+    fn probe<T: Elem, E>() -> (usize, usize, usize) {
+        let r: Result<T, E> = Ok(T::make(1));
+        let base = &r as *const _ as usize;
+        let off = match &r {
+            Ok(t) => t as *const T as usize - base,
+            Err(_) => unreachable!(),
+        };
+        (std::mem::size_of::<Result<T, E>>(), std::mem::align_of::<Result<T, E>>(), off)
+    }
+    assert_eq!(probe::<u64, u64>(), (16, 8, 8), "layout of Result<u64, u64>");
+    assert_eq!(probe::<B24, u8>(), (25, 1, 1), "layout of Result<[u8; 24], u8>");
+    assert_eq!(probe::<A32, u8>(), (64, 32, 32), "layout of Result<A32, u8>");
+}
 impl Elem for A32 {
     fn make(t: u8) -> Self {
         A32([t; 32])
@@ -277,6 +305,41 @@ macro_rules! do_allocate {
     }};
 }
 
+fn raw_bytes(addr: usize, len: usize) -> Vec<u8> {
+    unsafe { std::slice::from_raw_parts(region().real(addr), len).to_vec() }
+}
+fn boxed_out<T: ?Sized>(b: bump_scope::BumpBox<'_, T>) -> (usize, usize, Vec<u8>) {
+    let len = std::mem::size_of_val::<T>(&*b);
+    let ptr = b.into_raw();
+    let addr = v(ptr.cast::<u8>());
+    (addr, len, raw_bytes(addr, len))
+}
+
+/// One value-level call `$try_m` / `$m` (its panicking twin) with arguments `$args`, carried by the entry point `via`:
+///   trait      BumpAllocatorTypedScope method on `&BumpScope`              (try_)
+///   dyn        the same method on `&dyn BumpAllocatorCoreScope`             (try_)
+///   ref        the same method with receiver type `&&BumpScope`             (try_)
+///   layout     inherent (forwarded) method of the handle type               (try_)
+///   panicking  inherent (forwarded) method of the handle type               (panicking twin)
+///   typed      trait method                                                 (panicking twin)
+macro_rules! value_call {
+    ($self:ident, $via:expr, $try_m:ident, $m:ident, ($($args:expr),*), $conv:expr) => {{
+        let ts = $self.tscope();
+        let conv = $conv;
+        match $via {
+            "dyn" => {
+                let d: &dyn BumpAllocatorCoreScope<'_> = ts;
+                BumpAllocatorTypedScope::$try_m(d, $($args),*).map(conv).map_err(|_| ())
+            }
+            "ref" => BumpAllocatorTypedScope::$try_m(&ts, $($args),*).map(conv).map_err(|_| ()),
+            "layout" => $self.$try_m($($args),*).map(conv).map_err(|_| ()),
+            "panicking" => Ok(conv($self.$m($($args),*))),
+            "typed" => Ok(conv(BumpAllocatorTypedScope::$m(ts, $($args),*))),
+            _ => BumpAllocatorTypedScope::$try_m(ts, $($args),*).map(conv).map_err(|_| ()),
+        }
+    }};
+}
+
 macro_rules! with_wrap {
     ($h:expr, $wrap:expr, |$a:ident| $body:expr) => {{
         let h = $h;
@@ -353,6 +416,76 @@ macro_rules! impl_scope_ops {
                     Ok(())
                 }
                 _ => BumpAllocatorTyped::try_reserve(self, n).map_err(|_| ()),
+            }
+        }
+        fn alloc_value(&self, fam: &str, n: usize, tag: u8, via: &str) -> Result<(usize, usize, Vec<u8>), ()> {
+            let text: String = std::iter::repeat((b'a' + tag % 26) as char).take(n).collect();
+            match fam {
+                "u64" => value_call!(self, via, try_alloc, alloc, (u64::make(tag)), boxed_out),
+                "with_u64" => value_call!(self, via, try_alloc_with, alloc_with, (|| u64::make(tag)), boxed_out),
+                "default_u32" => value_call!(self, via, try_alloc_default, alloc_default, (), boxed_out::<u32>),
+                "copy_u8" => value_call!(self, via, try_alloc_slice_copy, alloc_slice_copy, (&vec![tag; n][..]), boxed_out),
+                "clone_u16" => value_call!(self, via, try_alloc_slice_clone, alloc_slice_clone, (&vec![u16::make(tag); n][..]), boxed_out),
+                "move_u32" => value_call!(self, via, try_alloc_slice_move, alloc_slice_move, (vec![u32::make(tag); n]), boxed_out),
+                "fill_u64" => value_call!(self, via, try_alloc_slice_fill, alloc_slice_fill, (n, u64::make(tag)), boxed_out),
+                "fill_with_u8" => value_call!(self, via, try_alloc_slice_fill_with, alloc_slice_fill_with, (n, || tag), boxed_out),
+                "str" => value_call!(self, via, try_alloc_str, alloc_str, (&text), boxed_out),
+                "cstr_from_str" => value_call!(self, via, try_alloc_cstr_from_str, alloc_cstr_from_str, (&text), |c: &std::ffi::CStr| {
+                    let b = c.to_bytes_with_nul();
+                    (v(NonNull::new(b.as_ptr() as *mut u8).unwrap()), b.len(), b.to_vec())
+                }),
+                "uninit_u64" => value_call!(self, via, try_alloc_uninit, alloc_uninit, (), |b: bump_scope::BumpBox<'_, std::mem::MaybeUninit<u64>>| {
+                    let (a, l, _) = boxed_out(b);
+                    (a, l, Vec::new())
+                }),
+                "uninit_slice_u32" => value_call!(self, via, try_alloc_uninit_slice, alloc_uninit_slice, (n), |b: bump_scope::BumpBox<'_, [std::mem::MaybeUninit<u32>]>| {
+                    let (a, l, _) = boxed_out(b);
+                    (a, l, Vec::new())
+                }),
+                "iter_exact_u64" => value_call!(self, via, try_alloc_iter_exact, alloc_iter_exact, ((0..n).map(|_| u64::make(tag))), boxed_out),
+                _ => panic!("unknown value family {fam}"),
+            }
+        }
+        fn try_with(&mut self, fam: &str, ok: bool, is_mut: bool, inner: bool, tag: u8, via: &str) -> Result<(Option<(usize, Vec<u8>)>, usize), ()> {
+            let inner_addr = std::cell::Cell::new(0usize);
+            macro_rules! go {
+                ($t:ty, $e:ty, $eval:expr) => {{
+                    let r: Result<Result<bump_scope::BumpBox<'_, $t>, $e>, ()> = if is_mut {
+                        let f = || -> Result<$t, $e> { if ok { Ok(<$t>::make(tag)) } else { Err($eval) } };
+                        match via {
+                            "panicking" | "typed" => Ok(self.alloc_try_with_mut(f)),
+                            _ => self.try_alloc_try_with_mut(f).map_err(|_| ()),
+                        }
+                    } else {
+                        let this = &*self;
+                        let f = || -> Result<$t, $e> {
+                            if inner {
+                                if let Ok((a, _)) = ScopeOps::allocate(this, Layout::from_size_align(8, 8).unwrap(), false, "trait") {
+                                    inner_addr.set(a);
+                                }
+                            }
+                            if ok { Ok(<$t>::make(tag)) } else { Err($eval) }
+                        };
+                        match via {
+                            "panicking" | "typed" => Ok(this.alloc_try_with(f)),
+                            _ => this.try_alloc_try_with(f).map_err(|_| ()),
+                        }
+                    };
+                    match r {
+                        Err(()) => Err(()),
+                        Ok(Ok(b)) => {
+                            let (a, _, bytes) = boxed_out(b);
+                            Ok((Some((a, bytes)), inner_addr.get()))
+                        }
+                        Ok(Err(_)) => Ok((None, inner_addr.get())),
+                    }
+                }};
+            }
+            match fam {
+                "u64_u64" => go!(u64, u64, 7u64),
+                "b24_u8" => go!(B24, u8, 7u8),
+                "a32_u8" => go!(A32, u8, 7u8),
+                _ => panic!("unknown try_with family {fam}"),
             }
         }
         fn checkpoint(&self) -> Checkpoint {
@@ -594,6 +727,35 @@ where
     }
     fn reset(&mut self) {
         BumpScopeGuard::reset(self);
+    }
+}
+
+/// the `BumpScope` behind a handle (the handle itself for a `BumpScope`, `as_scope()` for a `Bump`)
+pub trait TScope {
+    type S;
+    fn tscope(&self) -> &Self::S;
+}
+impl<'a, A, const MA: usize, const UP: bool, const GA: bool, const DE: bool, const SH: bool, const MCS: usize> TScope
+    for BumpScope<'a, A, BumpSettings<MA, UP, GA, true, DE, SH, MCS>>
+where
+    A: Flavour + BaseAllocator<Bool<GA>>,
+    MinimumAlignment<MA>: SupportedMinimumAlignment,
+{
+    type S = Self;
+    fn tscope(&self) -> &Self {
+        self
+    }
+}
+impl<A, const MA: usize, const UP: bool, const GA: bool, const DE: bool, const SH: bool, const MCS: usize> TScope
+    for Bump<A, BumpSettings<MA, UP, GA, true, DE, SH, MCS>>
+where
+    A: Flavour + BaseAllocator<Bool<GA>>,
+    MinimumAlignment<MA>: SupportedMinimumAlignment,
+{
+    type S = BumpScope<'static, A, BumpSettings<MA, UP, GA, true, DE, SH, MCS>>;
+    fn tscope(&self) -> &Self::S {
+        // shorten-only in practice: the reference is used for the duration of one call
+        unsafe { std::mem::transmute::<&BumpScope<'_, A, BumpSettings<MA, UP, GA, true, DE, SH, MCS>>, &Self::S>(self.as_scope()) }
     }
 }
 
